@@ -27,7 +27,7 @@ def run(ctx):
         quick = ctx.tier == "quick"
         core.trace_component(ctx, "conn", ["random", "--seed", ctx.seed, "--cases", 10 if quick else 60, "--progs", 300 if quick else 2000],
                              label="conn.random", oracle=oracle)
-        core.trace_component(ctx, "conn", ["exhaustive", "--seed", ctx.seed + 1, "--cases", 2500 if quick else 60000, "--progs", 6 if quick else 16,
+        core.trace_component(ctx, "conn", ["exhaustive", "--seed", ctx.seed + 1, "--cases", 2500 if quick else 20000, "--progs", 6 if quick else 16,
                                            "--preempt", 2 if quick else 3], label="conn.exhaustive", oracle=oracle)
         # outside the contract: forced removal of a role that is not attached (known finding)
         core.trace_component(ctx, "conn-misuse", ["random", "--seed", ctx.seed, "--cases", 10, "--progs", 150 if quick else 800],
